@@ -91,7 +91,42 @@ def mk_input(c):
     if c.get('form') == 'list':
         return [list(map(int, row)) for row in c['a']] if not is3(c['a']) else \
             [[list(map(int, row)) for row in sl] for sl in c['a']]
-    return nparr(c['a'], c.get('dtype'))
+    return with_layout(nparr(c['a'], c.get('dtype')), c.get('layout'))
+
+
+LAYOUTS = ('F', 'T', 'strided', 'neg', 'swap', 'ro', 'offset')
+
+
+def with_layout(x, layout):
+    """the SAME logical array (same shape, same values) held differently in memory: Fortran order, the transposed
+    view of a C array, a strided view into a larger buffer, a view with negative strides, non-native byte order,
+    read-only, a view at a byte offset into a 1-d buffer.  No helper may depend on it."""
+    if layout is None or layout == 'C':
+        return x
+    if layout == 'F':
+        y = np.asfortranarray(x)
+    elif layout == 'T':
+        y = np.ascontiguousarray(x.transpose()).transpose()
+    elif layout == 'strided':
+        big = np.full(tuple(2 * n + 1 for n in x.shape), 77, dtype=x.dtype)
+        big[tuple(slice(1, None, 2) for _ in x.shape)] = x
+        y = big[tuple(slice(1, None, 2) for _ in x.shape)]
+    elif layout == 'neg':
+        rev = tuple(slice(None, None, -1) for _ in x.shape)
+        y = np.ascontiguousarray(x[rev])[rev]
+    elif layout == 'swap':
+        y = x.astype(x.dtype.newbyteorder())
+    elif layout == 'ro':
+        y = x.copy()
+        y.setflags(write=False)
+    elif layout == 'offset':
+        buf = np.full(x.size + 3, 55, dtype=x.dtype)
+        buf[3:] = x.ravel()
+        y = buf[3:].reshape(x.shape)
+    else:
+        raise ValueError(layout)
+    assert y.shape == x.shape and np.array_equal(y, x)
+    return y
 
 
 def seq_arg(c, v):
@@ -471,6 +506,64 @@ def gen_histories(rng, n, maxn):
         yield {'op': 'shist', 'shape': shape, 'draws': draws}
 
 
+def gen_layouts(rng, n):
+    """every geometry helper on every memory layout of its array argument (C is what all other cases use)"""
+    ops = ('centroid', 'centroid', 'pad', 'pad3', 'subarray', 'window', 'window3', 'boundary', 'bslice', 'rebin', 'rebin3')
+    for k in range(n):
+        lay = LAYOUTS[k % len(LAYOUTS)]
+        op = ops[(k // len(LAYOUTS)) % len(ops)]
+        dt = rng.choice([None, None, 'float32', 'int32', 'uint8', 'uint16', 'bool'])
+        n_, m_ = rng.randint(1, 6), rng.randint(1, 7)
+        if rng.random() < 0.7 and n_ == m_:
+            m_ += 1
+
+        def arr(nonneg=False):
+            if dt is None:
+                return rnd_arr(rng, n_, m_, 0 if nonneg else -4, 9)
+            return rnd_arr_dt(rng, n_, m_, dt, nonneg=nonneg)
+        extra = {'layout': lay}
+        if dt:
+            extra['dtype'] = dt
+        if op == 'centroid':
+            a = arr(nonneg=True)
+            a[rng.randrange(n_)][rng.randrange(m_)] = 1
+            if rng.random() < 0.3:
+                a = [[0] * m_ for _ in range(n_)]
+                a[rng.randrange(n_)][rng.randrange(m_)] = 1
+            yield dict({'op': 'centroid', 'a': a}, **extra)
+        elif op == 'pad':
+            yield dict({'op': 'pad', 'a': arr(), 'shape': [rng.randint(1, 8), rng.randint(1, 8)]}, **extra)
+        elif op == 'pad3':
+            yield dict({'op': 'pad', 'a': [arr() for _ in range(rng.randint(1, 3))],
+                        'shape': [rng.randint(1, 8), rng.randint(1, 8)]}, **extra)
+        elif op == 'subarray':
+            yield dict({'op': 'subarray', 'a': arr(), 'shape': [rng.randint(1, n_), rng.randint(1, m_)], 'shift': [0, 0]},
+                       **extra)
+        elif op == 'window':
+            r0, r1 = sorted((rng.randint(0, n_), rng.randint(0, n_)))
+            c0, c1 = sorted((rng.randint(0, m_), rng.randint(0, m_)))
+            if rng.random() < 0.5:
+                yield dict({'op': 'window', 'a': arr(), 'shape': None, 'slice': [r0, r1, c0, c1]}, **extra)
+            else:
+                yield dict({'op': 'window', 'a': arr(), 'shape': [rng.randint(1, 8), rng.randint(1, 8)], 'slice': None},
+                           **extra)
+        elif op == 'window3':
+            yield dict({'op': 'window', 'a': [arr() for _ in range(rng.randint(2, 3))],
+                        'shape': [rng.randint(1, 7), rng.randint(1, 7)], 'slice': None}, **extra)
+        elif op in ('boundary', 'bslice'):
+            hi = DTYPES[dt][1] if dt else 5
+            a = [[(v and (hi if v % 2 else 1)) for v in row] for row in rnd_support(rng, n_, m_)]
+            if op == 'boundary':
+                yield dict({'op': 'boundary', 'a': a, 'thr': '0'}, **extra)
+            else:
+                yield dict({'op': 'bslice', 'a': a, 'thr': '0', 'pad': [rng.randint(0, 1), rng.randint(0, 2)]}, **extra)
+        else:
+            f = rng.randint(1, 3)
+            n_, m_ = f * rng.randint(1, 3), f * rng.randint(1, 3)
+            a = [arr() for _ in range(rng.randint(1, 3))] if op == 'rebin3' else arr()
+            yield dict({'op': 'rebin', 'a': a, 'f': f}, **extra)
+
+
 def cube_of(d, n, m, base=1):
     return [[[base + (k * n + i) * m + j for j in range(m)] for i in range(n)] for k in range(d)]
 
@@ -514,6 +607,7 @@ def generate(rng, tier):
         yield from gen_geometry_random(rng, 700)
         yield from gen_dtypes(rng, 210)
         yield from gen_window_cubes(rng, 90)
+        yield from gen_layouts(rng, 231)
         yield from gen_shapes(rng, 150, 16)
         yield from gen_histories(rng, 40, 20)
         yield from gen_hexseg(rng, 14, 3)
@@ -522,6 +616,7 @@ def generate(rng, tier):
         yield from gen_geometry_exhaustive()
         yield from gen_dtypes(rng, 2100)
         yield from gen_window_cubes(rng, 600)
+        yield from gen_layouts(rng, 2310)
         yield from gen_window_cubes_exhaustive()
         yield from gen_shapes(rng, 900, 24)
         yield from gen_histories(rng, 300, 24)
@@ -534,6 +629,8 @@ def classify(c):
         op = op + '3'
     if c.get('dtype'):
         return f'{op}:{c["dtype"]}'
+    if c.get('layout'):
+        return f'{op}:layout-{c["layout"]}'
     if c.get('form') or c.get('argform'):
         return f'{op}:argform'
     return op
@@ -688,7 +785,7 @@ def run_impl(c):
             res = lentil.boundary(a, float(Fraction(c['thr'])))
             return {'box': [int(v) for v in res], 'mutated': not unchanged(a, c)}
         if op == 'bslice':
-            x = nparr(c['a'], c.get('dtype'))
+            x = mk_input(c)
             padarg = c['pad'][0] if c.get('padform') == 'int' else tuple(c['pad'])
             s = lentil.helper.boundary_slice(x, float(Fraction(c['thr'])), padarg)
             off = lentil.helper.slice_offset(s, x.shape)
